@@ -6,6 +6,7 @@ Loci (BED):  L1 chr1:8-30   3 SNVs (one tri-allelic), several haplotypes  -> >2 
              L4 chr2:34-48  1 SNV, no read covers it                      -> no reads
              L5 chr1:36-48  2 SNVs, every read is reference               -> ALT-less record *with* SNVs
              L6 chr2:49-59  6 SNVs, no reads                              -> nothing reaches the threshold: REFMASKED + NOA, no ALT
+             L7 chr2:26-33  2 SNVs, every read carries the same non-reference haplotype -> REFMASKED with a single ALT
 Samples: S1 (ploidy 4, deep), S2 (ploidy 2), S3 (ploidy 6, shallow)."""
 import os
 
@@ -18,7 +19,7 @@ SNVS = [
     ("chr1", 12, REF["chr1"][12], None), ("chr1", 17, REF["chr1"][17], None), ("chr1", 22, REF["chr1"][22], None),
     ("chr1", 40, REF["chr1"][40], None), ("chr1", 44, REF["chr1"][44], None),
     ("chr2", 10, REF["chr2"][10], None), ("chr2", 14, REF["chr2"][14], None), ("chr2", 40, REF["chr2"][40], None),
-] + [("chr2", p, REF["chr2"][p], None) for p in (50, 51, 53, 54, 56, 57)]
+] + [("chr2", p, REF["chr2"][p], None) for p in (50, 51, 53, 54, 56, 57)] + [("chr2", p, REF["chr2"][p], None) for p in (28, 31)]
 
 
 def _alts(base, n):
@@ -26,7 +27,7 @@ def _alts(base, n):
 
 
 SNVS = [(c, p, r, _alts(r, 2 if (c, p) == ("chr1", 17) else 1)) for (c, p, r, _) in SNVS]
-LOCI = [("chr1", 8, 30, "L1"), ("chr1", 36, 48, "L5"), ("chr1", 50, 58, "L2"), ("chr2", 5, 25, "L3"), ("chr2", 34, 48, "L4"), ("chr2", 49, 59, "L6")]
+LOCI = [("chr1", 8, 30, "L1"), ("chr1", 36, 48, "L5"), ("chr1", 50, 58, "L2"), ("chr2", 5, 25, "L3"), ("chr2", 26, 33, "L7"), ("chr2", 34, 48, "L4"), ("chr2", 49, 59, "L6")]
 PLOIDY = {"S1": 4, "S2": 2, "S3": 6, "S0": 2}
 RG = {"S1": "rg1", "S2": "rg2", "S3": "rg3", "S0": "rg0"}
 HAPS = {
@@ -49,7 +50,7 @@ def sample_reads(sample, depth=None, prefix=None, haps=None):
     haps = haps or HAPS[sample]
     rg = RG.get(sample, "rg1")
     out = []
-    l1, l3, l5 = locus_snvs("L1"), locus_snvs("L3"), locus_snvs("L5")
+    l1, l3, l5, l7 = locus_snvs("L1"), locus_snvs("L3"), locus_snvs("L5"), locus_snvs("L7")
     for i in range(depth):
         if haps["L1"]:
             h = haps["L1"][i % len(haps["L1"])]
@@ -59,6 +60,10 @@ def sample_reads(sample, depth=None, prefix=None, haps=None):
             h = haps["L3"][(i + k) % len(haps["L3"])]
             st = 5 + (k % 2)
             out.append(dict(name="%sb%d_%d" % (prefix, i, k), contig="chr2", pos=st, cigar=[("M", 18)], seq=synth.hap_seq("chr2", st, 18, l3, h), rg=rg))
+        if haps["L1"] or haps["L3"]:  # samples with reads at the called loci are all fixed for the same non-reference haplotype at L7
+            for k in range(3):
+                out.append(dict(name="%sd%d_%d" % (prefix, i, k), contig="chr2", pos=25 - (k % 2), cigar=[("M", 10)],
+                                seq=synth.hap_seq("chr2", 25 - (k % 2), 10, l7, haps.get("L7", [(1, 1)])[0]), rg=rg))
         for k in range(4):
             st = 36 - (k % 2)
             out.append(dict(name="%sc%d_%d" % (prefix, i, k), contig="chr1", pos=st, cigar=[("M", 22)], seq=REF["chr1"][st:st + 22], rg=rg))
